@@ -106,44 +106,94 @@ func c26(c *engine.Ctx) {
 
 	// ---- (1) pairing
 	{
-		callers, nonCalls := tgCallersOf(p, N+"SaveValue")
-		c.Check("value-stagers", N+"SaveValue", token.NoPos, len(engine.SetDiff(callers, []string{T + "Set", P + "(*Importer).Add"})) == 0 && len(nonCalls) == 0 && len(callers) == 2, "callers: "+join(callers))
+		tgTableCallers(c, p, "value-stagers", N+"SaveValue", []string{T + "Set", P + "(*Importer).Add"}, N+"SaveValue")
 	}
 	if f := c.MustFunc(T + "Set"); f != nil {
-		info := f.Info()
-		saves := f.CallsTo(N + "SaveValue")
-		sets := f.CallsTo(N + "setFastIndex")
-		c.Floor("set-indexes", len(saves), 2)
+		// helper-transparent: SaveValue+setFastIndex may live in a private helper of Set
+		ds := f.DeepCallsTo(2, N+"SaveValue")
+		c.Floor("set-indexes", len(ds), 1)
 		keyP, valP := paramObj(f, 0), paramObj(f, 1)
-		for i, sv := range saves {
-			label := f.Name + " SaveValue#" + tgOrdinalByGate(f, sv)
-			_ = i
-			ok, bad := tgAfterMustPass(f, sv, sets, tgReturnsNilErr)
+		seen := map[*engine.Site]bool{}
+		for _, d := range ds {
+			if seen[d.Inner] {
+				continue // the same helper site reached from several call sites of Set
+			}
+			seen[d.Inner] = true
+			// level chain down to the function that contains the SaveValue call
+			l := &tgLevel{F: f}
+			cur, okChain := f, true
+			for _, h := range d.Chain {
+				var site *engine.Site
+				for _, s := range cur.Calls() {
+					if fn, _ := s.Callee.(*types.Func); fn != nil && p.FnOf(fn) == h && (cur != f || s == d.Outer) {
+						site = s
+					}
+				}
+				if site == nil {
+					okChain = false
+					break
+				}
+				l = &tgLevel{F: h, Parent: l, Call: site.Call, Site: site}
+				cur = h
+			}
+			if !okChain {
+				c.Check("set-indexes", f.Name+" helper chain", d.Outer.Pos(), false, "could not follow the helper chain to SaveValue")
+				continue
+			}
+			lf := l.F
+			li := lf.Info()
+			sv := d.Inner
+			sets := lf.CallsTo(N + "setFastIndex")
+			label := f.Name + " SaveValue" + tgIf(lf != f, " (in "+lf.Name+")") + "#" + tgOrdinalByGate(lf, sv)
+			ok, bad := tgAfterMustPass(lf, sv, sets, tgReturnsNilErr)
 			why := "every success return after staging the value passes setFastIndex"
 			if !ok {
 				why = "a success return (`" + tgRetKey(bad) + "`) is reachable after SaveValue without setFastIndex"
 			}
 			c.Check("set-indexes", label+" followed by setFastIndex", sv.Pos(), ok, why)
-			// argument agreement and error test for the index call that follows
 			okArgs, okErr := false, false
+			res := func(e ast.Expr) types.Object {
+				o, top := tgResolveObj(l, engine.ObjOf(li, e))
+				if top.Parent != nil {
+					return nil
+				}
+				return o
+			}
 			for _, st := range sets {
-				if !f.Graph().ReachableAfter(sv, st) || !f.Graph().Dominates(sv, st) {
+				if !lf.Graph().Dominates(sv, st) {
 					continue
 				}
 				if len(st.Call.Args) == 3 && len(sv.Call.Args) == 2 &&
-					engine.ObjOf(info, st.Call.Args[0]) == keyP &&
-					engine.ObjOf(info, st.Call.Args[1]) == engine.ObjOf(info, sv.Call.Args[1]) && engine.ObjOf(info, st.Call.Args[1]) != nil &&
-					engine.ObjOf(info, st.Call.Args[2]) == valP && engine.ObjOf(info, sv.Call.Args[0]) == valP {
+					res(st.Call.Args[0]) == keyP && keyP != nil &&
+					engine.ObjOf(li, st.Call.Args[1]) == engine.ObjOf(li, sv.Call.Args[1]) && engine.ObjOf(li, st.Call.Args[1]) != nil &&
+					res(st.Call.Args[2]) == valP && res(sv.Call.Args[0]) == valP && valP != nil {
 					okArgs = true
 				}
-				for _, r := range tgSuccessReturns(f) {
-					if f.Graph().ReachableAfter(st, r) && tgErrChecked(f, st, r) {
+				for _, r := range tgSuccessReturns(lf) {
+					if lf.Graph().ReachableAfter(st, r) && tgErrChecked(lf, st, r) {
 						okErr = true
 					}
 				}
 			}
-			c.Check("set-indexes", label+" same key/valueKey/value indexed", sv.Pos(), okArgs, "setFastIndex(key, vk, value) must index exactly what SaveValue(value, vk) staged for the key argument")
-			c.Check("set-indexes", label+" index error is tested", sv.Pos(), okErr, "success must lie on the `err == nil` side of setFastIndex")
+			// a helper's error must reach Set's caller: returned directly or tested
+			for x := l; x.Parent != nil && okErr; x = x.Parent {
+				pf := x.Parent.F
+				direct := false
+				if rs, isRet := x.Site.Top.(*ast.ReturnStmt); isRet && len(rs.Results) > 0 && ast.Unparen(rs.Results[len(rs.Results)-1]) == ast.Expr(x.Call) {
+					direct = true
+				}
+				if !direct {
+					tested := false
+					for _, r := range tgSuccessReturns(pf) {
+						if pf.Graph().ReachableAfter(x.Site, r) && tgErrChecked(pf, x.Site, r) {
+							tested = true
+						}
+					}
+					okErr = tested
+				}
+			}
+			c.Check("set-indexes", label+" same key/valueKey/value indexed", sv.Pos(), okArgs, "setFastIndex(key, vk, value) must index exactly what SaveValue(value, vk) staged for Set's key and value arguments")
+			c.Check("set-indexes", label+" index error is tested", sv.Pos(), okErr, "success must lie on the `err == nil` side of setFastIndex (and of the helper that wraps it)")
 		}
 	}
 	if f := c.MustFunc(T + "Remove"); f != nil {
@@ -229,116 +279,139 @@ func c26(c *engine.Ctx) {
 		c.Check("import-drops-index", f.Name+" option restored on every exit", f.Pos(), okBack, "opts.FastIndex must be restored from the saved value before every return that follows SaveVersion")
 	}
 	{
-		ws := engine.WriterSet(p.FieldWrites(optF), func(w engine.Write) bool { return w.Kind != "lit" })
-		c.Check("import-drops-index", "writers of Options.FastIndex", token.NoPos, len(engine.SetDiff(ws, []string{P + "FastIndexOption", P + "(*Importer).Commit"})) == 0, "writers: "+join(ws))
+		tgTableWriters(c, p, "import-drops-index", "writers of Options.FastIndex", p.FieldWrites(optF), func(w engine.Write) bool { return w.Kind != "lit" }, []string{P + "FastIndexOption", P + "(*Importer).Commit"})
 	}
 
-	// ---- (2) fastGet guards
+	// ---- (2) fastGet guards (helper-transparent: the decoding may live in a private function
+	// whose result fastGet returns directly; helper parameters are resolved to fastGet's arguments)
 	if f := c.MustFunc(N + "fastGet"); f != nil {
-		info := f.Info()
 		sP := paramObj(f, 1)
-		var hits []*engine.Site
-		for _, r := range tgReturnSites(f) {
-			rs := r.Node.(*ast.ReturnStmt)
-			if len(rs.Results) == 2 {
-				if id, ok := ast.Unparen(rs.Results[1]).(*ast.Ident); ok && id.Name == "true" {
-					hits = append(hits, r)
-				} else if !ok || id.Name != "false" {
-					hits = append(hits, r) // a computed verdict counts as a potential hit
+		type hit struct {
+			l *tgLevel
+			r *engine.Site
+		}
+		var hits []hit
+		var collect func(l *tgLevel, depth int)
+		collect = func(l *tgLevel, depth int) {
+			for _, r := range tgReturnSites(l.F) {
+				rs := r.Node.(*ast.ReturnStmt)
+				switch len(rs.Results) {
+				case 2:
+					if id, ok := ast.Unparen(rs.Results[1]).(*ast.Ident); ok && id.Name == "false" {
+						continue
+					}
+					hits = append(hits, hit{l, r})
+				case 1:
+					call, ok := ast.Unparen(rs.Results[0]).(*ast.CallExpr)
+					if !ok {
+						hits = append(hits, hit{l, r})
+						continue
+					}
+					var h *engine.Fn
+					if s := l.F.SiteOf(call); s != nil {
+						if fn, _ := s.Callee.(*types.Func); fn != nil {
+							h = p.FnOf(fn)
+						}
+					}
+					if h == nil || depth <= 0 {
+						hits = append(hits, hit{l, r}) // verdict computed somewhere we cannot follow
+						continue
+					}
+					collect(&tgLevel{F: h, Parent: l, Call: call, Site: r}, depth-1)
 				}
 			}
 		}
+		collect(&tgLevel{F: f}, 2)
 		c.Floor("fastget-guards", len(hits), 1)
-		var payload types.Object
-		vcs := f.CallsTo(P + "verifyChecksum")
-		for _, v := range vcs {
-			if as, ok := v.Top.(*ast.AssignStmt); ok && len(as.Lhs) == 2 {
-				payload = engine.ObjOf(info, as.Lhs[0])
-			}
-		}
-		gets := f.CallsTo("tm2/pkg/db.(DB).Get")
-		for _, r := range hits {
-			rs := r.Node.(*ast.ReturnStmt)
-			gates := f.Graph().Gates(r)
-			// every failing atom must sit in a `||` chain on the false side
-			has := func(pred func(a ast.Expr) bool) bool {
-				for _, gt := range gates {
-					if gt.OnTrue {
-						continue
+		for _, h := range hits {
+			facts := tgChainFacts(h.l, h.r)
+			// locate, on the chain, the DB read and the checksum verification and their result variables
+			var data, getErr, payload, vcErr types.Object
+			nGet, nVC := 0, 0
+			var vcSite *engine.Site
+			var vcLevel *tgLevel
+			for l := h.l; l != nil; l = l.Parent {
+				for _, s := range l.F.CallsTo("tm2/pkg/db.(DB).Get") {
+					nGet++
+					if as, ok := s.Top.(*ast.AssignStmt); ok && len(as.Lhs) == 2 {
+						data, getErr = engine.ObjOf(l.F.Info(), as.Lhs[0]), engine.ObjOf(l.F.Info(), as.Lhs[1])
 					}
-					for _, a := range engine.Conjuncts(gt.Cond, token.LOR) {
-						if pred(a) {
-							return true
-						}
+				}
+				for _, s := range l.F.CallsTo(P + "verifyChecksum") {
+					nVC++
+					vcSite, vcLevel = s, l
+					if as, ok := s.Top.(*ast.AssignStmt); ok && len(as.Lhs) == 2 {
+						payload, vcErr = engine.ObjOf(l.F.Info(), as.Lhs[0]), engine.ObjOf(l.F.Info(), as.Lhs[1])
+					}
+				}
+			}
+			any := func(pred func(tgFact) bool) bool {
+				for _, ft := range facts {
+					if pred(ft) {
+						return true
 					}
 				}
 				return false
 			}
-			errOf := func(call []*engine.Site) types.Object {
-				for _, s := range call {
-					if as, ok := s.Top.(*ast.AssignStmt); ok && len(as.Lhs) == 2 {
-						return engine.ObjOf(info, as.Lhs[1])
+			isConst8 := func(info *types.Info, e ast.Expr) bool {
+				tv := info.Types[e]
+				return tv.Value != nil && tv.Value.String() == "8"
+			}
+			name := f.Name
+			c.Check("fastget-guards", name+" hit behind db error test", h.r.Pos(), nGet == 1 && any(func(ft tgFact) bool { return tgFactIsNil(ft, getErr, true) }), "a DB read error must fall back to the tree walk")
+			c.Check("fastget-guards", name+" hit behind missing-entry test", h.r.Pos(), any(func(ft tgFact) bool { return tgFactIsNil(ft, data, false) }), "a missing entry must fall back to the tree walk")
+			// the checksum is verified on the record that was read (helper parameter resolved to fastGet's variable)
+			okVC := nVC == 1 && any(func(ft tgFact) bool { return tgFactIsNil(ft, vcErr, true) })
+			if okVC {
+				okVC = false
+				if len(vcSite.Call.Args) == 1 {
+					ro, _ := tgResolveObj(vcLevel, engine.ObjOf(vcLevel.F.Info(), vcSite.Call.Args[0]))
+					okVC = ro != nil && ro == data
+				}
+			}
+			c.Check("fastget-guards", name+" hit behind checksum test", h.r.Pos(), okVC, "a corrupt entry must fall back to the tree walk (verifyChecksum of the record read, error tested)")
+			c.Check("fastget-guards", name+" hit behind length test", h.r.Pos(), any(func(ft tgFact) bool {
+				info := ft.Fn.Info()
+				return tgFactOrd(ft, func(e ast.Expr) bool { return engine.IsLenOf(info, e, payload) }, func(e ast.Expr) bool { return isConst8(info, e) }, token.GEQ)
+			}), "an entry shorter than its 8-byte version prefix must fall back")
+			c.Check("fastget-guards", name+" hit behind entry-version test", h.r.Pos(), any(func(ft tgFact) bool {
+				info := ft.Fn.Info()
+				var lvl *tgLevel
+				for l := h.l; l != nil; l = l.Parent {
+					if l.F == ft.Fn {
+						lvl = l
 					}
 				}
-				return nil
-			}
-			isErrNe := func(a ast.Expr, e types.Object) bool {
-				b, ok := ast.Unparen(a).(*ast.BinaryExpr)
-				return ok && e != nil && b.Op == token.NEQ && isNil(b.Y) && engine.ObjOf(info, b.X) == e
-			}
-			getErr, vcErr := errOf(gets), errOf(vcs)
-			var data types.Object
-			for _, s := range gets {
-				if as, ok := s.Top.(*ast.AssignStmt); ok && len(as.Lhs) == 2 {
-					data = engine.ObjOf(info, as.Lhs[0])
-				}
-			}
-			c.Check("fastget-guards", f.Name+" hit behind db error test", r.Pos(), has(func(a ast.Expr) bool { return isErrNe(a, getErr) }) && len(gets) == 1, "a DB read error must fall back to the tree walk")
-			c.Check("fastget-guards", f.Name+" hit behind missing-entry test", r.Pos(), has(func(a ast.Expr) bool {
-				b, ok := ast.Unparen(a).(*ast.BinaryExpr)
-				return ok && data != nil && b.Op == token.EQL && isNil(b.Y) && engine.ObjOf(info, b.X) == data
-			}), "a missing entry must fall back to the tree walk")
-			// checksum err: note err variable is shared (`payload, err :=` redeclares) — accept the err object of the verifyChecksum assignment
-			c.Check("fastget-guards", f.Name+" hit behind checksum test", r.Pos(), len(vcs) == 1 && has(func(a ast.Expr) bool { return isErrNe(a, vcErr) }) && f.Graph().CheckedGuard(vcs[0], r).OK, "a corrupt entry must fall back to the tree walk")
-			c.Check("fastget-guards", f.Name+" hit behind length test", r.Pos(), has(func(a ast.Expr) bool {
-				b, ok := ast.Unparen(a).(*ast.BinaryExpr)
-				if !ok || b.Op != token.LSS || !engine.IsLenOf(info, b.X, payload) {
-					return false
-				}
-				tv := info.Types[b.Y]
-				return tv.Value != nil && tv.Value.String() == "8"
-			}), "an entry shorter than its 8-byte version prefix must fall back")
-			c.Check("fastget-guards", f.Name+" hit behind entry-version test", r.Pos(), has(func(a ast.Expr) bool {
-				b, ok := ast.Unparen(a).(*ast.BinaryExpr)
-				if !ok || (b.Op != token.GTR && b.Op != token.GEQ) || engine.ObjOf(info, b.Y) != sP {
-					return false
-				}
-				call, ok := ast.Unparen(b.X).(*ast.CallExpr)
-				if !ok || len(call.Args) != 1 || engine.ObjOf(info, call.Args[0]) != payload {
-					return false
-				}
-				s := f.SiteOf(call)
-				return s != nil && s.CalleeName() == P+"vkVersion"
-			}), "a hit requires the false side of `vkVersion(payload) > s` with s the snapshot version argument")
+				return lvl != nil && tgFactOrd(ft, func(e ast.Expr) bool {
+					call, ok := ast.Unparen(e).(*ast.CallExpr)
+					if !ok || len(call.Args) != 1 || engine.ObjOf(info, call.Args[0]) != payload {
+						return false
+					}
+					s := ft.Fn.SiteOf(call)
+					return s != nil && s.CalleeName() == P+"vkVersion"
+				}, func(e ast.Expr) bool {
+					o, top := tgResolveObj(lvl, engine.ObjOf(info, e))
+					return o != nil && o == sP && top.Parent == nil
+				}, token.LEQ, token.LSS)
+			}), "a hit requires `vkVersion(payload) <= s` with s the snapshot version argument of fastGet")
 			// returns a copy of the value part
 			okCopy := false
-			if call, ok := ast.Unparen(rs.Results[0]).(*ast.CallExpr); ok {
-				if s := f.SiteOf(call); s != nil && s.CalleeName() == P+"copyKey" && len(call.Args) == 1 {
-					if sl, ok := ast.Unparen(call.Args[0]).(*ast.SliceExpr); ok && engine.ObjOf(info, sl.X) == payload && sl.Low != nil {
-						if tv := info.Types[sl.Low]; tv.Value != nil && tv.Value.String() == "8" {
-							okCopy = true
-						}
+			rs := h.r.Node.(*ast.ReturnStmt)
+			if call, ok := ast.Unparen(rs.Results[0]).(*ast.CallExpr); ok && len(rs.Results) == 2 {
+				info := h.l.F.Info()
+				if s := h.l.F.SiteOf(call); s != nil && s.CalleeName() == P+"copyKey" && len(call.Args) == 1 {
+					if sl, ok := ast.Unparen(call.Args[0]).(*ast.SliceExpr); ok && engine.ObjOf(info, sl.X) == payload && sl.Low != nil && isConst8(info, sl.Low) {
+						okCopy = true
 					}
 				}
 			}
-			c.Check("fastget-guards", f.Name+" returns a copy of payload[8:]", r.Pos(), okCopy, "the value handed out must be copyKey(payload[8:])")
+			c.Check("fastget-guards", name+" returns a copy of payload[8:]", h.r.Pos(), okCopy, "the value handed out must be copyKey(payload[8:])")
 		}
 	}
 
 	// ---- (3) callers of fastGet
 	{
-		callers, nonCalls := tgCallersOf(p, N+"fastGet")
-		c.Check("fastget-callers", N+"fastGet", token.NoPos, len(engine.SetDiff(callers, []string{T + "Get", P + "(*ImmutableTree).Get"})) == 0 && len(nonCalls) == 0 && len(callers) == 2, "callers: "+join(callers))
+		tgTableCallers(c, p, "fastget-callers", N+"fastGet", []string{T + "Get", P + "(*ImmutableTree).Get"}, N+"fastGet")
 	}
 	if f := c.MustFunc(T + "Get"); f != nil {
 		info := f.Info()
@@ -401,8 +474,7 @@ func c26(c *engine.Ctx) {
 
 	// ---- (4) snapshot flag
 	{
-		ws := engine.WriterSet(p.FieldWrites(immFast), func(w engine.Write) bool { return w.Kind != "lit" })
-		c.Check("snapshot-stamp", "writers of ImmutableTree.fast", token.NoPos, len(engine.SetDiff(ws, []string{T + "newImmutable", T + "getImmutable"})) == 0 && len(ws) == 2, "writers: "+join(ws))
+		tgTableWriters(c, p, "snapshot-stamp", "writers of ImmutableTree.fast", p.FieldWrites(immFast), func(w engine.Write) bool { return w.Kind != "lit" }, []string{T + "newImmutable", T + "getImmutable"})
 		lit := 0
 		for _, w := range p.FieldWrites(immFast) {
 			if w.Kind == "lit" {
@@ -422,35 +494,76 @@ func c26(c *engine.Ctx) {
 	}
 	if f := c.MustFunc(T + "getImmutable"); f != nil {
 		info := f.Info()
-		verP := paramObj(f, 0)
 		ws := tgFieldAssigns(f, immFast)
 		c.Floor("snapshot-stamp", len(ws), 1)
-		var stamp, okv, errv types.Object
-		for _, s := range f.CallsTo(N + "getFastIndexVersion") {
-			if as, ok := s.Top.(*ast.AssignStmt); ok && len(as.Lhs) == 3 {
-				stamp, okv, errv = engine.ObjOf(info, as.Lhs[0]), engine.ObjOf(info, as.Lhs[1]), engine.ObjOf(info, as.Lhs[2])
-			}
+		// facts required of the value assigned to imm.fast: either the conjunction itself, or a private
+		// boolean helper all of whose non-false returns imply them
+		type stampCtx struct {
+			l     *tgLevel
+			facts []tgFact
 		}
 		for _, w := range ws {
 			rhs := tgRHSFor(f, w.Node.(*ast.AssignStmt), immFast)
-			hasStamp, hasOK, hasErr := false, false, false
-			for _, cj := range engine.Conjuncts(rhs, token.LAND) {
-				if b, isB := ast.Unparen(cj).(*ast.BinaryExpr); isB {
-					if b.Op == token.GEQ && engine.ObjOf(info, b.X) == stamp && engine.ObjOf(info, b.Y) == verP && stamp != nil {
+			var ctxs []stampCtx
+			root := &tgLevel{F: f}
+			if call, isCall := ast.Unparen(rhs).(*ast.CallExpr); isCall {
+				var h *engine.Fn
+				if s := f.SiteOf(call); s != nil {
+					if fn, _ := s.Callee.(*types.Func); fn != nil {
+						h = p.FnOf(fn)
+					}
+				}
+				if h != nil {
+					l := &tgLevel{F: h, Parent: root, Call: call, Site: w}
+					for _, r := range tgReturnSites(h) {
+						rs := r.Node.(*ast.ReturnStmt)
+						if len(rs.Results) != 1 {
+							continue
+						}
+						if id, ok := ast.Unparen(rs.Results[0]).(*ast.Ident); ok && id.Name == "false" {
+							continue
+						}
+						facts := tgGateFacts(h, r)
+						if id, ok := ast.Unparen(rs.Results[0]).(*ast.Ident); !ok || id.Name != "true" {
+							facts = append(facts, tgFactsOfCond(h, rs.Results[0], true)...)
+						}
+						ctxs = append(ctxs, stampCtx{l, facts})
+					}
+				}
+			}
+			if len(ctxs) == 0 {
+				ctxs = append(ctxs, stampCtx{root, tgFactsOfCond(f, rhs, true)})
+			}
+			okAll := true
+			for _, cx := range ctxs {
+				var stamp, okv, errv types.Object
+				for _, s := range cx.l.F.CallsTo(N + "getFastIndexVersion") {
+					if as, ok := s.Top.(*ast.AssignStmt); ok && len(as.Lhs) == 3 {
+						li := cx.l.F.Info()
+						stamp, okv, errv = engine.ObjOf(li, as.Lhs[0]), engine.ObjOf(li, as.Lhs[1]), engine.ObjOf(li, as.Lhs[2])
+					}
+				}
+				hasStamp, hasOK, hasErr := false, false, false
+				for _, ft := range cx.facts {
+					li := ft.Fn.Info()
+					if tgFactOrd(ft, func(e ast.Expr) bool { return stamp != nil && engine.ObjOf(li, e) == stamp }, func(e ast.Expr) bool {
+						o, top := tgResolveObj(cx.l, engine.ObjOf(li, e))
+						return o != nil && o == paramObj(f, 0) && top.Parent == nil
+					}, token.GEQ) {
 						hasStamp = true
 					}
-					if b.Op == token.LEQ && engine.ObjOf(info, b.Y) == stamp && engine.ObjOf(info, b.X) == verP && stamp != nil {
-						hasStamp = true
+					if tgFactBool(ft, okv, true) {
+						hasOK = true
 					}
-					if b.Op == token.EQL && engine.ObjOf(info, b.X) == errv && isNil(b.Y) && errv != nil {
+					if tgFactIsNil(ft, errv, true) {
 						hasErr = true
 					}
 				}
-				if engine.ObjOf(info, cj) == okv && okv != nil {
-					hasOK = true
+				if !(hasStamp && hasOK && hasErr) {
+					okAll = false
 				}
 			}
-			c.Check("snapshot-stamp", f.Name+" flag requires stamp >= snapshot version", w.Pos(), hasStamp && hasOK && hasErr, "imm.fast must be `err == nil && ok && stamp >= version`: an index stamped behind the snapshot can hold stale entries that pass the per-entry guard")
+			c.Check("snapshot-stamp", f.Name+" flag requires stamp >= snapshot version", w.Pos(), okAll, "imm.fast may only become true when `err == nil && ok && stamp >= version` (directly or through a private helper): an index stamped behind the snapshot can hold stale entries that pass the per-entry guard")
 			gt, ok := tgGateOn(f, w, func(e ast.Expr) bool { return tgSelField(info, e) == immFast.Origin() })
 			c.Check("snapshot-stamp", f.Name+" flag can only be lowered", w.Pos(), ok && gt.OnTrue, "the stamp test may only refine a flag that newImmutable raised")
 		}
@@ -458,8 +571,7 @@ func c26(c *engine.Ctx) {
 
 	// ---- (5) batch-only writes
 	{
-		callers, _ := tgCallersOf(p, P+"fastDBKey")
-		c.Check("index-writes-batched", P+"fastDBKey callers", token.NoPos, len(engine.SetDiff(callers, []string{N + "setFastIndex", N + "deleteFastIndex", N + "fastGet"})) == 0 && len(callers) == 3, "callers: "+join(callers))
+		tgTableCallers(c, p, "index-writes-batched", P+"fastDBKey callers", []string{N + "setFastIndex", N + "deleteFastIndex", N + "fastGet"}, P+"fastDBKey")
 		for _, fn := range []struct{ name, via string }{{N + "setFastIndex", "tm2/pkg/db.(Batch).Set"}, {N + "deleteFastIndex", "tm2/pkg/db.(Batch).Delete"}} {
 			f := c.MustFunc(fn.name)
 			if f == nil {
@@ -500,27 +612,15 @@ func c26(c *engine.Ctx) {
 		c.Check("index-writes-batched", "tm2/pkg/bptree has no direct DB write", token.NoPos, len(direct) == 0, "direct writers: "+join(tgUniq(direct)))
 		c.Floor("index-writes-batched db reads examined", reads, 8)
 		// stamp key references
-		o := p.Object(P + "metaFastVersionKey")
-		users := map[string]bool{}
-		for _, r := range p.RefsTo(func(x types.Object) bool { return x == o && o != nil }) {
-			if r.Fn != nil {
-				users[r.Fn.Root().Name] = true
-			}
-		}
-		us := engine.SortedKeys(users)
-		c.Check("index-writes-batched", P+"metaFastVersionKey users", token.NoPos, len(engine.SetDiff(us, []string{N + "setFastIndexVersion", N + "getFastIndexVersion", N + "dropFastIndex"})) == 0 && len(us) == 3, "users: "+join(us))
+		tgTableObjUsers(c, p, "index-writes-batched", P+"metaFastVersionKey users", p.Object(P+"metaFastVersionKey"), []string{N + "setFastIndexVersion", N + "getFastIndexVersion", N + "dropFastIndex"})
 	}
 
 	// ---- (6) rebuild policy
 	{
-		callers, nonCalls := tgCallersOf(p, T+"rebuildFastIndex")
-		c.Check("rebuild-policy", T+"rebuildFastIndex callers", token.NoPos, len(engine.SetDiff(callers, []string{T + "ensureFastIndex"})) == 0 && len(nonCalls) == 0 && len(callers) == 1, "callers: "+join(callers))
-		callers, nonCalls = tgCallersOf(p, T+"ensureFastIndex")
-		c.Check("rebuild-policy", T+"ensureFastIndex callers", token.NoPos, len(engine.SetDiff(callers, []string{T + "Load"})) == 0 && len(nonCalls) == 0 && len(callers) == 1, "callers: "+join(callers))
-		callers, nonCalls = tgCallersOf(p, T+"Load")
-		c.Check("rebuild-policy", T+"Load callers", token.NoPos, len(engine.SetDiff(callers, []string{T + "LoadVersion", S + "(*Store).LoadLatestVersion", S + "(*Store).LoadVersion"})) == 0 && len(nonCalls) == 0, "callers: "+join(callers))
-		callers, _ = tgCallersOf(p, N+"clearFastIndex")
-		c.Check("rebuild-policy", N+"clearFastIndex callers", token.NoPos, len(engine.SetDiff(callers, []string{T + "rebuildFastIndex", N + "dropFastIndex"})) == 0, "callers: "+join(callers))
+		tgTableCallers(c, p, "rebuild-policy", T+"rebuildFastIndex callers", []string{T + "ensureFastIndex"}, T+"rebuildFastIndex")
+		tgTableCallers(c, p, "rebuild-policy", T+"ensureFastIndex callers", []string{T + "Load"}, T+"ensureFastIndex")
+		tgTableCallers(c, p, "rebuild-policy", T+"Load callers", []string{T + "LoadVersion", S + "(*Store).LoadLatestVersion", S + "(*Store).LoadVersion"}, T+"Load")
+		tgTableCallers(c, p, "rebuild-policy", N+"clearFastIndex callers", []string{T + "rebuildFastIndex", N + "dropFastIndex"}, N+"clearFastIndex")
 	}
 	if f := c.MustFunc(T + "ensureFastIndex"); f != nil {
 		info := f.Info()
@@ -543,25 +643,20 @@ func c26(c *engine.Ctx) {
 			return b.Op == engine.Flip(op) && engine.ObjOf(info, b.Y) == stamp && tgSelField(info, b.X) == verF.Origin()
 		}
 		for _, s := range rb {
+			// some fact at the call site says: (stamp absent) or (stamp behind the loaded version) — in
+			// any syntactic form (one `||` test, two consecutive ifs, swapped operands)
 			ok := false
-			why := "rebuild must be on the true side of exactly `!ok || stamp < t.version`"
-			for _, gt := range f.Graph().Gates(s) {
-				if !gt.OnTrue {
-					continue
-				}
-				atoms := engine.Conjuncts(gt.Cond, token.LOR)
-				nOK, nLess, other := 0, 0, 0
-				for _, a := range atoms {
-					switch {
-					case isNot(a) && engine.ObjOf(info, tgStripNot(a)) == okv && okv != nil:
-						nOK++
-					case stamp != nil && cmpStamp(a, token.LSS):
-						nLess++
-					default:
-						other++
+			why := "rebuild must be reachable only when `!ok || stamp < t.version`"
+			for _, ft := range tgGateFacts(f, s) {
+				all := true
+				for _, d := range tgDisjuncts(ft) {
+					absent := tgFactBool(d, okv, false)
+					behind := tgFactOrd(d, func(e ast.Expr) bool { return stamp != nil && engine.ObjOf(info, e) == stamp }, func(e ast.Expr) bool { return tgSelField(info, e) == verF.Origin() }, token.LSS)
+					if !absent && !behind {
+						all = false
 					}
 				}
-				if nOK == 1 && nLess == 1 && other == 0 {
+				if all {
 					ok = true
 				}
 			}
